@@ -236,7 +236,7 @@ func (config ConfigDistribution) GetNamedParametersAsStrings(name string) ([]str
 }
 
 func (config ConfigDistribution) GetNamedParameterAsScalar(name string, t ScalarType) (Scalar, bool) {
-  if v, ok := config.getFloat(config.Parameters); !ok {
+  if v, ok := config.GetNamedParameterAsFloat(name); !ok {
     return nil, false
   } else {
     return NewScalar(t, v), true
